@@ -17,8 +17,8 @@ of a truncated copy with 1..N-1 result sets, or of the listing opened with one t
   monotone  times and steps of the result sets are non-decreasing (precondition of "nearest")
 
 Sequences: every concrete action alone (from the first and from the last result set); every pair of the
-9 action classes; every class sequence of length 3 (quick, 6 merged classes) / 4 (thorough, 9 classes;
-files > 90 kB: a seeded sample), the concrete parameters of a class (which index, exact / between /
+9 action classes; every class sequence of length 3 (quick, 6 merged classes; files > 250 kB: half of them) /
+4 (thorough, 9 classes; files > 90 kB: a seeded sample), the concrete parameters of a class (which index, exact / between /
 before-first / after-last time and step, which history selection) rotating through their variants;
 the out-of-range index in context; random sequences of 30 actions.  Failing sequences are shrunk.
 
@@ -362,7 +362,7 @@ def sequences(pool, n, rnd, mode, size):
         rot[c] += 1
         return v
     # (all variants alone?, pairs?, (alphabet, length) of the long product or None, cap on it, random sequences)
-    plan = {('full', True): (False, True, (merged, 3), 216, 8), ('full', False): (True, True, (classes, 4), 600000000 // max(size, 1), 60),
+    plan = {('full', True): (False, True, (merged, 3), 216 if size < 250000 else 108, 4), ('full', False): (True, True, (classes, 4), 600000000 // max(size, 1), 60),
             ('trunc', True): (False, True, None, 0, 2), ('trunc', False): (True, True, (classes, 3), 150000000 // max(size, 1), 20),
             ('skip', True): (False, False, None, 0, 2), ('skip', False): (True, True, (merged, 3), 216, 20),
             ('single', True): (False, False, None, 0, 1), ('single', False): (True, True, None, 0, 10)}[(mode, QUICK)]
